@@ -371,8 +371,9 @@ type model struct {
 	residue map[uint64]bool
 	orphan  bool
 	// the per-store region counter cached in StoreInfo as the code maintains it: refreshed for
-	// the stores of a region whenever that region changes in the cache, zero after a restart
-	// until then (RemoveTombStoneRecords documents that it skips tombstones by this counter)
+	// the stores of a region whenever that region changes in the cache and for every store at
+	// the end of a reload, i.e. always the number of cached regions with a peer on the store
+	// (RemoveTombStoneRecords documents that it skips tombstones by this counter)
 	cached map[uint64]int
 }
 
@@ -1132,7 +1133,11 @@ func runHistory(c Case, spinners int) (vkit.Info, error) {
 					info.Class("reload-succeeded-despite-read-fault")
 				}
 			}
+			// LoadClusterInfo derives the per-store counters from the loaded region cache
 			m.cached = map[uint64]int{}
+			for _, id := range m.ids() {
+				m.cached[id] = m.regionCount(id)
+			}
 			m.orphan = false
 			offlineWithPeers := false
 			for _, id := range m.ids() {
